@@ -59,13 +59,22 @@ func checkSem(c *core.Ctx, sp semProp) error {
 		err error
 	}
 	mcCh := make(chan mcOut, 1)
-	go func() {
-		mc, err := ModelCheck(c, r.CasesFile, 8)
+	runMC := func() {
+		mc, err := ModelCheck(c, r.CasesFile, parOf(2, 1))
 		mcCh <- mcOut{mc, err}
-	}()
+	}
+	serial := Par() <= 8 // small budget: one TLC at a time
+	if !serial {
+		go runMC()
+	}
 	if err := r.Conform(c, bin, "main", o, "SemTrace", 64); err != nil {
-		<-mcCh
+		if !serial {
+			<-mcCh
+		}
 		return err
+	}
+	if serial {
+		runMC()
 	}
 	m := <-mcCh
 	if m.err != nil {
